@@ -141,9 +141,21 @@ def w_large(ctx, rng, idx):
     """registers far beyond a dense state vector (up to 72 qubits, often more than 53 measured sites - the mantissa of a double):
     product states, GHZ-type states and random right-orthonormal states of rank 2; decided by the transfer-matrix oracle"""
     n = int(rng.integers(20, 73))
-    kind = idx % 3
+    kind = idx % 4
     with probe.oracle():
-        if kind == 0:
+        if kind == 3:
+            # a long register in a basis state (no entropy) followed by a few entangled qubits: all sampled strings agree on the
+            # leading 54-66 bits and differ only in the tail
+            n0, n1 = int(rng.integers(54, 67)), int(rng.integers(3, 7))
+            n = n0 + n1
+            cores = []
+            for _ in range(n0):
+                v = np.zeros(2, dtype=complex)
+                v[int(rng.integers(0, 2))] = 1.0
+                cores.append(v.reshape(1, 2, 1, 1))
+            tail = gen.right_orthonormal_cores(gen.rand_cores(rng, [2] * n1, [1] * n1, gen.max_ranks([2] * n1, [1] * n1), True))
+            psi = tt.TT(cores + list(tail))
+        elif kind == 0:
             cores = []
             for _ in range(n):
                 v = rng.standard_normal(2) + 1j * rng.standard_normal(2)
@@ -166,8 +178,23 @@ def w_large(ctx, rng, idx):
     k = n if rng.random() < 0.5 else int(rng.integers(max(1, n - 10), n + 1))
     sub = sorted(int(i) for i in rng.choice(n, size=k, replace=False))
     N = [1, 20, 200][int(rng.integers(0, 3))]
-    ctx.describe({'op': 'sampling large register', 'qubits': n, 'measured': k, 'kind': ['product', 'ghz', 'random_rank2'][kind], 'samples': N})
+    if kind == 3:
+        sub, k, N = list(range(n)) if rng.random() < 0.6 else sorted(set(range(n)) - {int(rng.integers(0, n0))}), n, [50, 200, 1000][int(rng.integers(0, 3))]
+        k = len(sub)
+    ctx.describe({'op': 'sampling large register', 'qubits': n, 'measured': k, 'kind': ['product', 'ghz', 'random_rank2', 'basis_prefix_entangled_tail'][kind], 'samples': N})
     call('quantum_computation.sampling', qc.sampling, psi, sub, N, prop=P, tags=['large_register'])
+
+
+def w_huge_environment(ctx, rng, idx):
+    """thorough tier only (about 1.5 GB per case): a 9-qubit state of full rank with 1100-1700 samples - the squared ranks on both sides
+    of the middle bonds times the sample count exceed 2^26 entries, the size where an implementation may start to work block-wise"""
+    n = 9
+    with probe.oracle():
+        psi = tt.TT(gen.right_orthonormal_cores(gen.rand_cores(rng, [2] * n, [1] * n, gen.max_ranks([2] * n, [1] * n), True)))
+    N = int(rng.integers(1100, 1700))
+    sub = list(range(n)) if rng.random() < 0.5 else sorted(int(i) for i in rng.choice(n, size=7, replace=False))
+    ctx.describe({'op': 'sampling with a huge left environment', 'qubits': n, 'measured': sub, 'samples': N})
+    call('quantum_computation.sampling', qc.sampling, psi, sub, N, prop=P, tags=['huge_environment'])
 
 
 WORKLOADS = [
@@ -176,6 +203,7 @@ WORKLOADS = [
     Workload('special', w_special, 60, 1200),
     Workload('sequence', w_sequence, 80, 1500),
     Workload('large', w_large, 20, 300),
+    Workload('huge_environment', w_huge_environment, 0, 1),
 ]
 REQUIRED = ['C20|quantum_computation.sampling:equals_inverse_cdf_sampling_of_born_marginal', 'C20|quantum_computation.sampling:frequencies_sum_to_one',
             'C20|quantum_computation.sampling:bit_strings_distinct', 'C20|quantum_computation.sampling:frequencies_converge_to_born_marginal',
